@@ -266,10 +266,34 @@ class Campaign:
             self.seq.append(mine)
         nseq = len(self.seq)
         recs = []
+        loops = []
         if self.with_corr:
             recs = [r for r in o["rec"].records if "after" in r and not r.get("raised")]
             reqs += [{"op": "ir_op", "ir": r["before"], "do": r["do"]} for r in recs]
-        self.pending.append((case, o, recs, reqs, self.seq))
+            # the loop of _apply_modifications itself (IR.applyMods), request by request: the block the
+            # previous call returned, the running total_insert_len, the offset the request was registered with
+            allrecs = o["rec"].records
+            for mine in self.seq:
+                base = next((e["_base"] for e in mine if e["_base"] is not None), None)
+                total, prev = 0, mine[0]["block"]
+                for e in mine:
+                    r = allrecs[e["_rec"]] if e.get("_rec") is not None and e["_rec"] < len(allrecs) else None
+                    if r is None or "after" not in r or r.get("raised") or base is None:
+                        break
+                    d = r["do"]
+                    step = {"kind": d["kind"], "off": e["off"]}
+                    if d["kind"] == "insert":
+                        step.update(repl=d["repl"], patch=d["patch"])
+                    else:
+                        step.update(length=d["length"], proxy=d["proxy"])
+                    reqs.append({"op": "loop_step", "ir": r["before"], "orig_off": base, "actual": d["block"],
+                                 "total": total, "do": step})
+                    loops.append((r, prev, e))
+                    prev = r.get("ret")
+                    total += len(e["ins"]) - e["del"]
+                    if prev is None:
+                        break
+        self.pending.append((case, o, recs, reqs, self.seq, loops))
         if sum(len(p[3]) for p in self.pending) >= 400:
             self.flush()
 
@@ -298,7 +322,7 @@ class Campaign:
             self.pending = []
             return
         k = 0
-        for case, o, recs, reqs, seq in self.pending:
+        for case, o, recs, reqs, seq, loops in self.pending:
             a = ans[k]
             extra = 0
             if self.facet == "C03":
@@ -310,7 +334,8 @@ class Campaign:
                     k += len(reqs)
                     continue
             seqans = ans[k + 1 + extra:k + 1 + extra + len(seq)]
-            mine = ans[k + 1 + extra + len(seq):k + len(reqs)]
+            mine = ans[k + 1 + extra + len(seq):k + len(reqs) - len(loops)]
+            loopans = ans[k + len(reqs) - len(loops):k + len(reqs)]
             k += len(reqs)
             for edits, sa in zip(seq, seqans):
                 ctx.count("corr:offsets")
@@ -344,11 +369,36 @@ class Campaign:
                 if "ir" not in m:
                     ctx.mismatch("model refuses %s that the code performs: %s" % (r["do"]["kind"], m.get("err")), case)
                     continue
-                ca, _ = irdump.canon(r["after"])
-                cm, _ = irdump.canon(m["ir"])
+                ca, na = irdump.canon(r["after"])
+                cm, nm = irdump.canon(m["ir"])
                 if ca != cm:
                     d = irdump.diff_paths(ca, cm)[:4]
                     ctx.mismatch("IR after %s differs between code and model at %s" % (r["do"]["kind"], d), case)
+                elif "ret" in r and r["do"]["kind"] in ("insert", "delete"):
+                    # the block the call returns (the loop of _apply_modifications goes on with it)
+                    ra = None if r["ret"] is None else na["blocks"].get(r["ret"], "detached")
+                    rm = None if m.get("ret") is None else nm["blocks"].get(m["ret"], "detached")
+                    ctx.count("corr:returned-block")
+                    if ra != rm:
+                        ctx.mismatch("%s returns block #%s (in address order), the model block #%s" % (r["do"]["kind"], ra, rm), case)
+            for (r, prev, e), la in zip(loops, loopans):
+                ctx.count("corr:loop-step")
+                if "ao" not in la:
+                    ctx.mismatch("model of the _apply_modifications loop could not be evaluated: %s" % (la,), case)
+                    continue
+                if r["do"]["block"] != prev:
+                    ctx.mismatch("_apply_modifications edits block %s, the previous call returned %s" % (r["do"]["block"], prev), case)
+                if la["ao"] != r["do"]["offset"]:
+                    ctx.mismatch("_apply_modifications passes offset %s for the request at %s, the model (offset + total_insert_len - block_delta) %s"
+                                 % (r["do"]["offset"], e["off"], la["ao"]), case)
+                if not la["ids_below"] or not la["new_blocks"]:
+                    ctx.mismatch("premise of loop_is_listing does not hold on a recorded state: ids_below=%s new_blocks=%s"
+                                 % (la["ids_below"], la["new_blocks"]), case)
+                if "ir" not in la["res"]:
+                    ctx.mismatch("model of the loop refuses a request the code performs: %s" % (la["res"].get("err"),), case)
+                    continue
+                if irdump.canon(r["after"])[0] != irdump.canon(la["res"]["ir"])[0]:
+                    ctx.mismatch("IR after one iteration of the _apply_modifications loop differs between code and model", case)
         self.pending = []
 
 
